@@ -10,7 +10,7 @@ trap 'rm -rf "$TMP"' EXIT
 git -C /repo archive HEAD | tar -x -C "$TMP" || exit 2
 ( cd "$TMP" && git init -q . 2>/dev/null; git -C "$TMP" apply "$PATCH" ) || { echo "MUTANT $PATCH: patch does not apply"; exit 2; }
 if "$HERE/tools/baseline.sh" "$TMP" >/dev/null 2>&1; then BASE=green; else BASE=RED; fi
-OUT="$(VERIF_REPO="$TMP" VERIF_EVIDENCE_DIR="$TMP/evidence" "$HERE/check" "$PROP" "$TIER" 2>&1)"; RC=$?
+OUT="$(VERIF_REPO="$TMP" VERIF_EVIDENCE_DIR="$TMP/evidence" timeout 1800 "$HERE/check" "$PROP" "$TIER" 2>&1)"; RC=$?
 V="$(printf '%s\n' "$OUT" | grep -c '^VIOLATION')"
 if [ "$RC" = 1 ] && [ "$V" -gt 0 ]; then VERDICT=KILLED; elif [ "$RC" = 0 ]; then VERDICT=SURVIVED; else VERDICT="HARNESS-ERROR(rc=$RC)"; fi
 echo "MUTANT $(basename "$(dirname "$PATCH")")/$(basename "$PATCH") on $PROP $TIER: $VERDICT baseline=$BASE violations=$V"
